@@ -3,7 +3,8 @@
    runner.choose_overload, [resolve_spec] states the documented rules with set-like combinators only);
    tied to runner.py / specs.py / yaqltypes.py / contexts.py by harness/props/c05.py. *)
 From Coq Require Import List ZArith Bool Arith.
-From YV Require Import Common.Corr Model.Resolution Lemmas.ResolutionSpec Lemmas.ResolutionWinner.
+From YV Require Import Common.Corr Model.Resolution Gen.Registry Lemmas.ResolutionSpec Lemmas.ResolutionWinner
+                       Lemmas.ResolutionBind Lemmas.ResolutionRank Lemmas.ResolutionMap Lemmas.ResolutionWf Lemmas.ResolutionRegistry.
 Import ListNotations.
 
 (* the loops compute exactly the documented rules: outcome, bound arguments and evaluation log,
@@ -78,6 +79,16 @@ Theorem C05_unknown : forall (sub : tag -> tag -> bool) has_receiver chain args 
   collect has_receiver chain = [] -> call sub has_receiver chain args pykw = (Failed EUnknown, []).
 Proof. intros sub r chain args pykw H. unfold call. rewrite H. reflexivity. Qed.
 
+(* every definition of the standard library (regenerated on every run by harness/gen_registry.py: one
+   model row per FunctionDefinition of yaql.create_context(), every parameter's smart-type described
+   by the answers of its live check() - kind KProbed - or as a hidden kind) is representable and
+   well-formed: distinct yaql-side names of the bound parameters, distinct positions, every argument
+   slot read by some parameter; row i carries fid i *)
+Theorem C05_registry_representable :
+  length reg_fdefs = registry_size /\ fids_from 0 reg_fdefs = true /\
+  forall f, In f reg_fdefs -> wf_params_b (fparams f) = true.
+Proof. exact (conj reg_fdefs_size_ok (conj registry_fids registry_wf)). Qed.
+
 (* ---- the lattice used by the correspondence is a strict partial order *)
 Example sub6_irrefl : forall a, sub6 a a = false.
 Proof. intro a. do 9 (destruct a as [|a]; [reflexivity|]). reflexivity. Qed.
@@ -135,6 +146,7 @@ Example C05_nontransitive :
           [[f1; f2; f3]; [f1; f3; f2]; [f2; f1; f3]; [f2; f3; f1]; [f3; f1; f2]; [f3; f2; f1]] = true.
 Proof. vm_compute. repeat split. Qed.
 
+Print Assumptions C05_registry_representable.
 Print Assumptions C05_choose_is_spec.
 Print Assumptions C05_eval_once.
 Print Assumptions C05_eval_once_each.
